@@ -278,6 +278,7 @@ def run(ctx: Ctx) -> None:
             ctx.obligation(f"correspondence ({k}) on Mem and SQLite == Lean model", v == 0, f"{v} disagreements")
         live_runner(ctx, clock)
         two_recovery_runs(ctx, clock)
+        stale_scan_meets_taken(ctx, clock)
         large_backlog(ctx, clock)
     finally:
         clock.uninstall()
@@ -379,6 +380,88 @@ def two_recovery_runs(ctx: Ctx, clock: VirtualClock) -> None:
                 lost = [i for i in ids if b.rec(i)[0] == "rerouted" and i not in q]
                 if lost:
                     ctx.report(f"rerouted-not-queued[{kind}]:{rk}:overlapping-runs", f"[{kind}] {len(lost)} invocation(s) REROUTED by overlapping recovery runs are in no queue", rep)
+
+
+def stale_scan_meets_taken(ctx: Ctx, clock: VirtualClock) -> None:
+    """run 2 scans, then run 1 scans and takes everything, then run 2 acts on its (now stale) scan - it meets invocations
+    another LIVE run has already switched to *_RECOVERY - and finishes, then run 1 re-queues what it took.  Real threads, the
+    order forced at the scan and at the re-queue phase."""
+    import threading
+
+    from pynenc import context, core_tasks
+    from pynenc.invocation.status import InvocationStatus as S
+
+    for kind in ("mem", "sqlite"):
+        for rk in ("pending", "running"):
+            n = 6
+            b = Back(ctx, kind, 5.0, 0.5, f"stale{rk}")
+            dead = rctx("rDead")
+            ids = [b.task(j).invocation_id for j in range(n)]
+            for i in ids:
+                b.o.set_invocation_status(i, S.PENDING, dead)
+                if rk == "running":
+                    b.o.set_invocation_status(i, S.RUNNING, dead)
+            clock.advance(3_600_000_000)
+            b.o.register_runner_heartbeats(["recovery", "recovery2"])
+            o = b.o
+            name = "get_pending_invocations_for_recovery" if rk == "pending" else "get_running_invocations_for_recovery"
+            orig_scan, orig_reroute = getattr(o, name), o.reroute_invocations
+            fn = core_tasks.recover_pending_invocations if rk == "pending" else core_tasks.recover_running_invocations
+            scanned2, go2 = threading.Event(), threading.Event()
+            out: dict[str, str] = {}
+            main = threading.current_thread()
+            state = {"released": False}
+
+            def run2() -> None:
+                context.set_current_app(b.app)
+                context.set_runner_context(b.app.app_id, rctx("recovery2"))
+                try:
+                    fn()
+                    out["run2"] = "done"
+                except BaseException as e:  # noqa: BLE001
+                    out["run2"] = f"raised {type(e).__name__}: {e}"
+
+            t2 = threading.Thread(target=run2, daemon=True)
+
+            def scan():
+                items = list(orig_scan())
+                if threading.current_thread() is t2:
+                    scanned2.set()
+                    go2.wait(20)            # ... run 1 scans and takes everything meanwhile
+                yield from items
+
+            def reroute(invocation_ids, runner_ctx):
+                if threading.current_thread() is main and not state["released"]:
+                    state["released"] = True
+                    go2.set()               # run 2 now acts on its stale scan and finishes
+                    t2.join(20)
+                return orig_reroute(invocation_ids, runner_ctx)
+
+            setattr(o, name, scan)
+            o.reroute_invocations = reroute
+            try:
+                t2.start()
+                scanned2.wait(20)
+                out["run1"] = run_recovery(b.app, rk)
+                t2.join(20)
+            finally:
+                delattr(o, name)
+                del o.reroute_invocations
+            flush(b.app)
+            q = b.queue()
+            ctx.count()
+            ctx.distinct((kind, "stale-scan", rk))
+            rep = {"scenario": "stale-scan-meets-taken", "backend": kind, "kind": rk, "stuck": n}
+            if out.get("run1") != "done" or out.get("run2") != "done":
+                ctx.report(f"recovery-run-raised[{kind}]:{rk}:stale-scan", f"[{kind}] run 2 of recover_{rk}_invocations acts on a scan taken before run 1 switched the same {n} invocations to recovery: {out}", rep)
+            left = sorted({b.rec(i)[0] for i in ids} & {"pending_recovery", "running_recovery", "pending", "running"})
+            if left:
+                cnt = sum(1 for i in ids if b.rec(i)[0] in left)
+                ctx.report(f"stranded-in-recovery[{kind}]:{rk}:stale-scan", f"[{kind}] after two overlapping recover_{rk}_invocations runs (run 2 on a stale scan) {cnt} of {n} stuck invocations are still {left}: "
+                                                                          f"never re-queued, invisible to every later scan", rep)
+            lost = [i for i in ids if b.rec(i)[0] == "rerouted" and i not in q]
+            if lost:
+                ctx.report(f"rerouted-not-queued[{kind}]:{rk}:stale-scan", f"[{kind}] {len(lost)} REROUTED invocation(s) are in no queue after two overlapping recovery runs", rep)
 
 
 def large_backlog(ctx: Ctx, clock: VirtualClock) -> None:
